@@ -71,7 +71,7 @@ def build(kind, pl, rng=None):
     if kind == "Revolve":
         # face normal along the direction of rotation (right-hand rule about the axis)
         f_ = cb.Face([pl.P(1, 0, 0), pl.P(1, 0, 1), pl.P(2, 0, 1), pl.P(2, 0, 0)])
-        return [cb.Revolve(f_, r(0.3, 1.2), pl.V(0, 0, 1), pl.c)], chop_op, info
+        return [cb.Revolve(f_, r(0.3, 1.2), pl.V(0, 0, 1), pl.c)], chop_op, {"arc_axis": (pl.c, pl.V(0, 0, 1))}
     if kind == "Wedge":
         f_ = cb.Face([[0, 0.5, 0], [1, 0.5, 0], [1, 1.2, 0], [0, 1.2, 0]])
         return [cb.Wedge(f_, r(0.03, 0.1))], chop_op, {"degenerate_ok": True}
@@ -90,7 +90,7 @@ def build(kind, pl, rng=None):
         return [cb.ExtrudedRing(pl.P(0, 0, 0), pl.P(0, 0, r(0.5, 2)), pl.P(1, 0, 0), r(0.3, 0.7) * pl.s, n_segments=n_seg)], chop_round, info
     if kind == "RevolvedRing":
         cs = cb.Face([pl.P(0, 1.0, 0), pl.P(1.0, 1.0, 0), pl.P(1.0, 1.6, 0), pl.P(0, 1.4, 0)])
-        return [cb.RevolvedRing(pl.P(0, 0, 0), pl.P(1, 0, 0), cs, n_segments=n_seg)], chop_round, info
+        return [cb.RevolvedRing(pl.P(0, 0, 0), pl.P(1, 0, 0), cs, n_segments=n_seg)], chop_round, {"arc_axis": (pl.P(0, 0, 0), pl.V(1, 0, 0))}
     if kind == "Hemisphere":
         return [cb.Hemisphere(pl.P(0, 0, 0), pl.P(1, 0, 0), pl.V(0, 0, 1))], chop_round, info
     if kind in ("OneCoreDisk", "FourCoreDisk", "HalfDisk"):
@@ -131,7 +131,8 @@ def build(kind, pl, rng=None):
         return [st], chop_stack, info
     if kind == "RevolvedStack":
         sk = cb.Grid([1, 0, 0], [3, 2, 0], 2, 2)
-        st = cb.RevolvedStack(sk, r(0.5, 2.0), [0, -1, 0], [0, 0, 0], 3)
+        st = cb.RevolvedStack(sk, r(0.5, 2.0), [0, -1, 0], [0.4, 0, 0.2], 3)   # axis of revolution away from the coordinate origin
+        info = {"arc_axis": (np.array([0.4, 0, 0.2]), np.array([0.0, -1.0, 0.0]))}
 
         def chop_stack(stack):
             stack.chop(count=2)
@@ -243,6 +244,21 @@ def check_blocking(ctx, kind, entities, chop, info, tol_scale=1.0):
                     n_arcs += 1
                     ctx.prove("outer-arc-middle-point-on-the-intended-circle", abs(rad(np.asarray(e.third_point.position, dtype=float)) - R) < 1e-6 * R)
         ctx.prove("outer-arcs-present", n_arcs > 0)
+    # 3b. revolved shapes: every arc between two points of one circle about the axis of revolution stays on that circle
+    if "arc_axis" in info:
+        c0, ax = info["arc_axis"]
+        ax = np.asarray(ax, dtype=float) / np.linalg.norm(ax)
+        polar = lambda p: (float(np.dot(p - c0, ax)), float(np.linalg.norm((p - c0) - ax * np.dot(p - c0, ax))))
+        n_arcs = 0
+        for e in mesh.edge_list.edges:
+            if e.kind in ("origin", "arc", "angle"):
+                (a1, r1), (a2, r2) = polar(np.asarray(e.vertex_1.position, dtype=float)), polar(np.asarray(e.vertex_2.position, dtype=float))
+                if abs(a1 - a2) < 1e-7 * scale and abs(r1 - r2) < 1e-7 * scale:
+                    n_arcs += 1
+                    am, rm = polar(np.asarray(e.third_point.position, dtype=float))
+                    ctx.prove("arc-of-revolution-stays-on-its-circle-about-the-axis", abs(am - a1) < 1e-6 * scale and abs(rm - r1) < 1e-6 * scale,
+                              axial=(a1, am), radius=(r1, rm))
+        ctx.prove("arcs-of-revolution-present", n_arcs > 0)
     # 4. the documented chop calls are sufficient for writing
     if chop is not None:
         fd, path = tempfile.mkstemp(suffix=".bmd", dir=os.environ.get("TMPDIR"))
